@@ -480,8 +480,132 @@ pub fn folding(rec: &mut Rec, max_len: usize, max_depth: usize) {
     }
 }
 
+/// The remaining public key operations, observed through commitments (the key fields are private):
+/// `CommitterKeyStream::as_committer_key`, `CommitterKey::index_by`, `CommitterKey::batch_commit`,
+/// `VerifierKey::from(&CommitterKeyStream)`.
+pub fn key_operations(rec: &mut Rec) {
+    let n = 9usize;
+    let ck = str_key(n - 1, 3, rec.seed);
+    let sck = CommitterKeyStream::from(&ck);
+    let unit = |i: usize, len: usize| -> Vec<F> {
+        let mut v = vec![F::zero(); len];
+        v[i] = F::one();
+        v
+    };
+    let g: Vec<<E381 as Pairing>::G1Affine> = (0..n).map(|i| ck.commit(&unit(i, n)).verif_inner()).collect();
+    let r = rho_stream::<F>(rec.seed, 25, 2 * n);
+    for m in 1..=n {
+        let id = format!("STR/keys/as_committer_key/m={}", m);
+        if !rec.take(&id) {
+            continue;
+        }
+        rec.dim("family", "keys");
+        let k = match catch(|| sck.as_committer_key(m)) {
+            Ok(k) => k,
+            Err(e) => {
+                viol(rec, "as_committer_key/panics", &id, e);
+                continue;
+            }
+        };
+        let mut ok = true;
+        for i in 0..m {
+            rec.count_points(1);
+            if catch(|| k.commit(&unit(i, i + 1)).verif_inner()).ok() != Some(g[i]) {
+                ok = false;
+            }
+        }
+        // nothing beyond the requested size
+        let over = catch(|| k.commit(&unit(m, m + 1)).verif_inner());
+        if over.is_ok() {
+            ok = false;
+        }
+        rec.class(if ok { "key-op-ok" } else { "key-op-bad" });
+        if !ok {
+            viol(rec, "as_committer_key/differs", &id, format!("the key of size {} cut from the stream does not hold exactly the first {} powers", m, m));
+        }
+    }
+    // index_by: every index vector over {0,1,2} of length 3 (collisions included)
+    for code in 0..27usize {
+        let idx = [code % 3, code / 3 % 3, code / 9];
+        let id = format!("STR/keys/index_by/{:?}", idx).replace(' ', "");
+        if !rec.take(&id) {
+            continue;
+        }
+        rec.dim("family", "keys");
+        let k = match catch(|| ck.index_by(&idx)) {
+            Ok(k) => k,
+            Err(e) => {
+                viol(rec, "index_by/panics", &id, e);
+                continue;
+            }
+        };
+        let mut ok = true;
+        for i in 0..3 {
+            rec.count_points(1);
+            let mut want = <E381 as Pairing>::G1::zero();
+            for (kk, t) in idx.into_iter().enumerate() {
+                if t == i {
+                    want += g[kk];
+                }
+            }
+            if catch(|| k.commit(&unit(i, i + 1)).verif_inner()).ok() != Some(want.into_affine()) {
+                ok = false;
+            }
+        }
+        rec.class(if ok { "key-op-ok" } else { "key-op-bad" });
+        if !ok {
+            viol(rec, "index_by/differs", &id, format!("index_by({:?}): element i is not the sum of the powers whose index is i", idx));
+        }
+    }
+    // batch_commit == the list of single commitments, for every list of up to three vectors of different lengths
+    let vecs: Vec<Vec<F>> = vec![vec![], r[..1].to_vec(), r[1..5].to_vec(), r[5..5 + n].to_vec()];
+    for code in 0..64usize {
+        let sel = [code % 4, code / 4 % 4, code / 16];
+        let id = format!("STR/keys/batch_commit/{:?}", sel).replace(' ', "");
+        if !rec.take(&id) {
+            continue;
+        }
+        rec.dim("family", "keys");
+        let list: Vec<Vec<F>> = sel.into_iter().map(|i| vecs[i].clone()).collect();
+        rec.count_points(1);
+        let got = catch(|| ck.batch_commit(&list).into_iter().map(|c| c.verif_inner()).collect::<Vec<_>>());
+        let want: Vec<_> = (0..list.len()).map(|i| ck.commit(&list[i]).verif_inner()).collect();
+        let ok = got.as_ref().ok() == Some(&want);
+        rec.class(if ok { "key-op-ok" } else { "key-op-bad" });
+        if !ok {
+            viol(rec, "batch_commit/differs", &id, "batch_commit is not the list of the single commitments".into());
+        }
+    }
+    // the verifier key derived from the stream decides like the one derived from the time key
+    let id = "STR/keys/verifier-key-from-stream".to_string();
+    if rec.take(&id) {
+        rec.dim("family", "keys");
+        let vk_t = SVk::from(&ck);
+        let vk_s = SVk::from(&sck);
+        let coeffs = r[..n].to_vec();
+        let c = ck.commit(&coeffs);
+        let mut ok = true;
+        for z in [r[n], F::zero(), F::one()] {
+            let (v, pf) = ck.open(&coeffs, &z);
+            for dv in [F::zero(), F::one()] {
+                rec.count_points(1);
+                let a = str_verify(&vk_t, &c, &z, &(v + dv), &pf).accepted();
+                let b = str_verify(&vk_s, &c, &z, &(v + dv), &pf).accepted();
+                if a != b || a != dv.is_zero() {
+                    ok = false;
+                }
+            }
+        }
+        rec.class(if ok { "key-op-ok" } else { "key-op-bad" });
+        if !ok {
+            viol(rec, "verifier-key/from-stream-differs", &id, "the verifier key derived from the streaming key decides differently from the one derived from the time key".into());
+        }
+    }
+}
+
 pub fn run(rec: &mut Rec) {
     let t = rec.thorough();
     provers(rec, if t { 256 } else { 40 }, if t { 8 } else { 4 });
     folding(rec, 130, 7);
+    key_operations(rec);
 }
